@@ -39,15 +39,25 @@ Compute(e, swap, queries) ==
 \* `basis` = <<cols, rows, xpx, ypx>> of the last required (re-)determination, or <<>>:
 \* a determination is required at the first call, when the size in cells differs from the
 \* one at the previous call, and after a toggle (swap on/off, queries re-enabled)
-BasisAfterGet(basis, e) ==
-  IF basis # <<>> /\ basis[1] = e.cols /\ basis[2] = e.rows THEN basis
-  ELSE <<e.cols, e.rows, e.xpx, e.ypx>>
+\* afterFail: the previous look-up of the cell size was cut short by an exception and none has returned since.
+\* An implementation may then keep what it knew (basis[3..4]) or drop it and determine again: the pixel size at
+\* this look-up becomes a second admissible reference (basis[5..6]); nothing is *required* to be noticed
+BasisAfterLookup(basis, e, afterFail) ==
+  IF basis # <<>> /\ basis[1] = e.cols /\ basis[2] = e.rows
+    THEN (IF afterFail /\ <<e.xpx, e.ypx>> # <<basis[3], basis[4]>>
+            THEN <<basis[1], basis[2], basis[3], basis[4], e.xpx, e.ypx>> ELSE basis)
+    ELSE <<e.cols, e.rows, e.xpx, e.ypx>>
+BasisAfterGet(basis, e) == BasisAfterLookup(basis, e, FALSE)
 
 \* the pixel size a correct answer may be based on: a pixel-only change at an unchanged
 \* size in cells need not be noticed (caching per terminal size is documented)
 RefEnv(basis, e) ==
   IF basis # <<>> /\ basis[1] = e.cols /\ basis[2] = e.rows
     THEN [e EXCEPT !.xpx = basis[3], !.ypx = basis[4]]
+    ELSE e
+RefEnv2(basis, e) ==
+  IF basis # <<>> /\ Len(basis) = 6 /\ basis[1] = e.cols /\ basis[2] = e.rows
+    THEN [e EXCEPT !.xpx = basis[5], !.ypx = basis[6]]
     ELSE e
 
 \* the cell sizes get_cell_size() may return in environment e (basis already updated):
@@ -63,6 +73,7 @@ Candidates(x, swap, queries) ==
 
 AllowedCells(basis, e, swap, queries) ==
   Candidates(e, swap, queries) \cup Candidates(RefEnv(basis, e), swap, queries)
+    \cup Candidates(RefEnv2(basis, e), swap, queries)
 
 \* ratios are compared as fractions
 SameRatio(a, b) == a[1] * b[2] = a[2] * b[1]
